@@ -38,6 +38,10 @@ pub struct Case {
     pub cache: u8,
     pub ops: Vec<Op>,
     pub settle_order: Vec<u16>,
+    /// store capacity (0 = 4096, never reached): with 2..5 the store prunes its farthest record to
+    /// admit a closer one, which is a removal like any other
+    #[serde(default)]
+    pub cap: u8,
 }
 
 pub fn key_of(node: u8, k: u8) -> RecordKey {
@@ -94,8 +98,9 @@ pub fn case_strategy() -> BoxedStrategy<Case> {
         prop_oneof![Just(1u8), Just(2u8), Just(3u8), Just(25u8)],
         proptest::collection::vec(segment_strategy(), 0..vh_core::depth(40, 140)),
         proptest::collection::vec(any::<u16>(), 0..8),
+        prop_oneof![3 => Just(0u8), 1 => 2u8..6],
     )
-        .prop_map(|(node, cache, segs, settle_order)| Case { node, cache, ops: segs.into_iter().flatten().collect(), settle_order })
+        .prop_map(|(node, cache, segs, settle_order, cap)| Case { node, cache, ops: segs.into_iter().flatten().collect(), settle_order, cap })
         .boxed()
 }
 
@@ -129,8 +134,10 @@ pub fn check(case: &Case, ctx: &mut Ctx) {
     let mut sim = DriverSim::new_node(
         dir.path(),
         keypair_from_seed(case.node as u64),
-        Some((4096, case.cache.max(1) as usize)),
+        Some((if case.cap == 0 { 4096 } else { case.cap as usize }, case.cache.max(1) as usize)),
     );
+    let cap = if case.cap == 0 { 4096 } else { case.cap as usize };
+    let (mut evictions, mut refusals_at_capacity) = (0, 0);
     let keys: Vec<RecordKey> = (0..NKEYS as u8).map(|k| key_of(case.node, k)).collect();
     let mut handed: Vec<Vec<Vec<u8>>> = vec![vec![]; NKEYS];
     let mut last: Vec<Last> = vec![Last::Nothing; NKEYS];
@@ -172,11 +179,9 @@ pub fn check(case: &Case, ctx: &mut Ctx) {
                 }
                 handed[ki].push(v.clone());
                 // an injected write fault is over once the path is free again and every earlier write of
-                // the key has reported (stored or failed+removed): from here the key is judged in full
-                if tainted[ki] && !blocked[ki] && unacked[ki] == 0 {
-                    tainted[ki] = false;
-                    fault_resolved = true;
-                }
+                // the key has reported (stored or failed+removed): a write ACCEPTED from here on is
+                // judged in full
+                let fault_over = tainted[ki] && !blocked[ki] && unacked[ki] == 0;
                 if last[ki] != Last::Nothing {
                     overwrite = true;
                 }
@@ -190,16 +195,39 @@ pub fn check(case: &Case, ctx: &mut Ctx) {
                     .map(|s| s.verif_cache_keys().contains(&keys[ki]))
                     .unwrap_or(false)
                     && sim.get_local(&keys[ki]).map(|r| r.value == v).unwrap_or(false);
+                let listed_before: Vec<usize> = {
+                    let l = sim.list();
+                    (0..NKEYS).filter(|i| l.contains_key(&NetworkAddress::from_record_key(&keys[*i]))).collect()
+                };
                 match sim.put_local(record(&keys[ki], v.clone())) {
                     Ok(()) => {
+                        if fault_over {
+                            tainted[ki] = false;
+                            fault_resolved = true;
+                        }
                         if !cached_same {
                             unacked[ki] += 1;
                         }
                         removed_inflight[ki] = false;
-                        last[ki] = Last::PutOk(v)
+                        last[ki] = Last::PutOk(v);
+                        // a full store admits a closer record by pruning its farthest one: the victim
+                        // (whichever the store chose; C10 judges the choice) has been removed
+                        let l = sim.list();
+                        for e in listed_before.iter().filter(|i| **i != ki && !l.contains_key(&NetworkAddress::from_record_key(&keys[**i]))) {
+                            evictions += 1;
+                            if unacked[*e] > 0 {
+                                inflight_remove = true;
+                                removed_inflight[*e] = true;
+                            }
+                            last[*e] = Last::Removed;
+                        }
                     }
                     Err(e) => {
-                        ctx.precondition_failed("put_rejected_unexpectedly", format!("op {idx}: put of key {ki} below capacity returned {e}"));
+                        if listed_before.len() >= cap {
+                            refusals_at_capacity += 1;
+                        } else {
+                            ctx.precondition_failed("put_rejected_unexpectedly", format!("op {idx}: put of key {ki} below capacity returned {e}"));
+                        }
                     }
                 }
             }
@@ -292,6 +320,11 @@ pub fn check(case: &Case, ctx: &mut Ctx) {
             }
         }
         sim.drain();
+        if std::env::var_os("VERIF_DEBUG").is_some() {
+            let l = sim.list();
+            let listed: Vec<usize> = (0..NKEYS).filter(|i| l.contains_key(&NetworkAddress::from_record_key(&keys[*i]))).collect();
+            eprintln!("after op {idx} {op:?}: listed {listed:?} unacked {unacked:?} notifs {:?} last {:?}", sim.notifications.iter().map(|n| format!("{n:?}").chars().take(40).collect::<String>()).collect::<Vec<_>>(), last.iter().map(|l| match l { Last::Nothing => "-", Last::PutOk(_) => "P", Last::Removed => "R" }).collect::<String>());
+        }
         sync_notifs(&sim, &mut notif_seen_at, idx);
     }
 
@@ -392,6 +425,8 @@ pub fn check(case: &Case, ctx: &mut Ctx) {
     ctx.label_if(tainted.iter().any(|t| *t), "write_fault_injected");
     ctx.label_if(fault_resolved, "write_after_resolved_fault");
     ctx.label_if(put_again, "same_value_handed_in_again");
+    ctx.label_if(evictions > 0, "record_pruned_at_capacity");
+    ctx.label_if(refusals_at_capacity > 0, "put_refused_at_capacity");
     ctx.nontrivial_if((overwrite || remove_acked) && (ack_reordered || ack_delayed));
     drop(sim);
 }
